@@ -168,3 +168,44 @@ Proof.
   apply (picture_eq_fast_eq w h); [|exact Hr].
   unfold picture_ok_fast in Hok. rewrite !andb_true_iff in Hok. tauto.
 Qed.
+
+(* ---------- counting distinct colours in time O(pixels x colours) ---------- *)
+
+(* `distinct100` (SixelDraw.v) removes duplicates by looking each pixel up in the REST of the list: quadratic in the
+   pixel count, minutes for a 25k-pixel image.  The count below keeps the colours seen so far; it is the same
+   number (both lists are duplicate-free and have the elements of the input). *)
+From SNT Require Import Image.Octree Image.OctreeExact Image.SixelDraw.
+
+Fixpoint nodup_acc (seen : list rgb) (l : list rgb) : list rgb :=
+  match l with
+  | [] => seen
+  | c :: r => if mem c seen then nodup_acc seen r else nodup_acc (c :: seen) r
+  end.
+
+Lemma nodup_acc_spec l : forall seen, NoDup seen ->
+  NoDup (nodup_acc seen l) /\ (forall x, In x (nodup_acc seen l) <-> In x seen \/ In x l).
+Proof.
+  induction l as [|c r IH]; intros seen Hnd; cbn [nodup_acc].
+  - split; [exact Hnd|]. intro x. cbn. tauto.
+  - destruct (mem c seen) eqn:Hm.
+    + destruct (IH seen Hnd) as [H1 H2]. split; [exact H1|]. intro x. rewrite H2. cbn.
+      apply mem_In in Hm. split; [tauto|]. intros [H|[H|H]]; [tauto|subst; tauto|tauto].
+    + assert (Hni : ~ In c seen) by (intro Hc; apply mem_In in Hc; congruence).
+      destruct (IH (c :: seen) (NoDup_cons c Hni Hnd)) as [H1 H2]. split; [exact H1|].
+      intro x. rewrite H2. cbn. tauto.
+Qed.
+
+Lemma nodup_acc_length l : length (nodup_acc [] l) = length (nodup_rgb l).
+Proof.
+  destruct (nodup_acc_spec l [] (NoDup_nil _)) as [Ha Hin].
+  pose proof (nodup_rgb_NoDup l) as Hb.
+  apply Nat.le_antisymm; apply NoDup_incl_length; try assumption; intros x Hx.
+  - apply nodup_rgb_In. apply Hin in Hx. cbn in Hx. tauto.
+  - apply Hin. right. apply nodup_rgb_In. exact Hx.
+Qed.
+
+Definition distinct100_fast (rows : list (list spx)) : N :=
+  N.of_nat (length (nodup_acc [] (concat (sixel_src100 rows)))).
+
+Lemma distinct100_fast_eq rows : distinct100_fast rows = distinct100 rows.
+Proof. unfold distinct100_fast, distinct100. now rewrite nodup_acc_length. Qed.
